@@ -210,7 +210,7 @@ func c07TreeGen(tier Tier) TreeGen {
 		Kinds: stackKinds,
 		Leaf:  func(t *rapid.T) Val { return genPrimVal(t, true, false) },
 		Conds: true, CondExprStack: true, CondExprCond: true, NotAsCondExpr: true,
-		IndexOpts: true, Wraps: true, NilLeaves: true, EmptyStacks: true, Caps: true, FIFOOpt: true, Options: true, ZooLeaves: true, DeepChains: true, Ambient: true, WideRuns: true, NoNestAfter: true, ReadOnlyNodes: true,
+		IndexOpts: true, Wraps: true, NilLeaves: true, EmptyStacks: true, Caps: true, FIFOOpt: true, Options: true, ZooLeaves: true, DeepChains: true, Ambient: true, Pasts: true, WideRuns: true, NoNestAfter: true, ReadOnlyNodes: true,
 	}
 	if tier.Thorough {
 		g.MaxWidth, g.Budget = 5, 45
